@@ -84,6 +84,22 @@ def memo_rule(repo: Repo, prop: str, rule_id: str, module_prefixes: Tuple[str, .
                                 hit = b_.attr
                         if hit is not None and stale_state is None:
                             stale_state = (m_, hit, n_)
+            # ... or from an attribute of the ELEMENTS of one of its containers that the class re-assigns element by element
+            # (for wire in self.wires: wire.grading = ...): the memoised value is a view of those elements
+            if stale_state is None:
+                elem_attrs = {n_.attr for g_ in seen_ for n_ in ast.walk(g_.node) if isinstance(n_, ast.Attribute) and isinstance(n_.ctx, ast.Load) and not (isinstance(n_.value, ast.Name) and g_.params and n_.value.id == g_.params[0])}
+                for c_ in [*repo.mro(fn.cls), *repo.subclasses(fn.cls)]:
+                    for m_ in c_.methods.values():
+                        if m_.name == "__init__" or m_ is fn or not m_.params:
+                            continue
+                        sn_ = m_.params[0]
+                        for lp in ast.walk(m_.node):
+                            if isinstance(lp, ast.For) and isinstance(lp.target, ast.Name) and isinstance(lp.iter, ast.Attribute) and isinstance(lp.iter.value, ast.Name) and lp.iter.value.id == sn_ and lp.iter.attr in read_attrs:
+                                for n_ in ast.walk(lp):
+                                    if isinstance(n_, ast.Assign):
+                                        for t_ in n_.targets:
+                                            if isinstance(t_, ast.Attribute) and isinstance(t_.value, ast.Name) and t_.value.id == lp.target.id and t_.attr in elem_attrs and stale_state is None:
+                                                stale_state = (m_, f"{lp.iter.attr}[..].{t_.attr}", n_)
         if stale_state is not None:
             m_, attr_, node_ = stale_state
             r.bad(
